@@ -11,7 +11,7 @@ SPEC = {
     "claim": {
         "category": "fault_enumeration",
         "technique": "enumerated fault injection: for every operation of a ~100-entry catalogue x size classes x storage modes, each allocation the operation performs is made to throw in turn; post-fault state judged against pre-fault models through an allocation registry under ASan",
-        "text": "For each operation instance the allocations it performs are counted, then the instance is rebuilt and re-run once per allocation with exactly that allocation throwing std::bad_alloc; afterwards bad_alloc must have reached the caller, the registry must show no invalid/double free, every involved object must be readable, own its storage and hold its previous (target: previous or empty) value, be assignable and destructible, and no block may remain. The catalogue x modes x allocations product is enumerated completely in the thorough tier (thinned in the quick tier); rapidcheck adds random instances. After every faulted run a fixed set of unrelated calls (trim, tokenize, find, replace, split, format, conversions, codecs on fresh objects) must give the digest it gave before any fault was injected (nothing hidden is left behind). The catalogue also searches a long haystack with the n-byte needle (n to 1100) in both case modes and drives ST::printf / ST::writef (char, wchar_t, char16_t, char32_t) into sinks that never allocate themselves (FILE* over a fixed array, fixed-array streambuf), so that every failing allocation is the library's own.",
+        "text": "For each operation instance the allocations it performs are counted, then the instance is rebuilt and re-run once per allocation with exactly that allocation throwing std::bad_alloc; afterwards bad_alloc must have reached the caller, the registry must show no invalid/double free, every involved object must be readable, own its storage and hold its previous (target: previous or empty) value, be assignable and destructible, and no block may remain. The catalogue x modes x allocations product is enumerated completely in the thorough tier (thinned in the quick tier); rapidcheck adds random instances. After every faulted run a fixed set of unrelated calls (trim, tokenize, find, replace, split, format, conversions, codecs on fresh objects) must give the digest it gave before any fault was injected (nothing hidden is left behind). The catalogue also searches a long haystack with the n-byte needle (n to 1100) in both case modes and drives ST::printf / ST::writef (char, wchar_t, char16_t, char32_t) into sinks that never allocate themselves (FILE* over a fixed array, fixed-array streambuf), so that every failing allocation is the library's own. There is no counting pass: each instance is run with allocation 1, 2, 3 ... failing until a run completes without reaching the fault, so the first execution of an operation in the process is already a faulted one; blocks left behind count as a leak only when the identical run, repeated, leaves blocks behind again (storage kept for reuse is not a leak). C allocator calls (malloc/calloc/realloc/free) made by library code go through the same injector and registry as operator new (link-time wrap). The catalogue includes floating-point renderings of 64+ characters.",
         "level_note": "Complete over the catalogue, the six size classes and the storage-mode flags; other argument values are not explored. Faults are single (one failing allocation per run).",
     },
 }
